@@ -305,7 +305,9 @@ func (p IndexVectorVamanaParameters) Validate() error {
 	if p.DegreeBound < 32 || p.DegreeBound > 64 {
 		return fmt.Errorf("degree bound must be between 32 and 64, got %d", p.DegreeBound)
 	}
-	if p.Alpha < 1.1 || p.Alpha > 1.5 {
+	// Written as a negation so that NaN, which compares false with
+	// everything, is refused as well (MessagePack can carry it).
+	if !(p.Alpha >= 1.1 && p.Alpha <= 1.5) {
 		return fmt.Errorf("alpha must be between 1.1 and 1.5, got %f", p.Alpha)
 	}
 	if p.Quantizer != nil {
